@@ -118,6 +118,7 @@ def focused(tier):
     fam = "F-ps"
     out.append(single("ps inf", fam, c="inf", K=K, nodekw={"ps": True}, features=["ps"]))
     out.append(single("ps cap2", fam, c=2, K=K, nodekw={"ps": True}, features=["ps"]))
+    out += ageing_priorities(tier)
     return out
 
 
